@@ -832,6 +832,9 @@ var natives = map[string]extFn{
 	"os/user.Current": func(e *Engine, _ *frame, fn *ssa.Function, a []value) value {
 		return tuple{(*value)(nil), mkError("user: Current not implemented in the model")}
 	},
+	"regexp.QuoteMeta": func(e *Engine, _ *frame, _ *ssa.Function, a []value) value {
+		return regexp.QuoteMeta(e.needStr(a[0], "regexp.QuoteMeta"))
+	},
 	"regexp.Compile": func(e *Engine, _ *frame, _ *ssa.Function, a []value) value {
 		s := e.needStr(a[0], "regexp.Compile")
 		re, err := regexp.Compile(s)
